@@ -1,5 +1,6 @@
 // ===================== ScalarProtocol (src/protocols/scalar_protocol.rs): trait declaration with the U6 contracts =====================
 // v is the first nonzero draw from the RNG stream that starts in state st0, st1 is the state right after that draw
+#[verifier::opaque]
 pub open spec fn rnz_drawn<R: CryptoRngCore>(st0: RngSt, v: Scalar, st1: RngSt) -> bool {
     exists|n: nat| #![trigger rng_steps::<R>(st0, n)] {
         &&& v == rng_scalar(rng_steps::<R>(st0, n))
